@@ -40,11 +40,27 @@ class Flags:
         self._w = bool(v)
 
 
-class FA:
-    def __init__(self, name, base=None):
+class FA(np.ndarray):
+    """fake array: an ndarray subclass (the lock manager asks `isinstance(arr.base, np.ndarray)`) whose `flags` and `base` are the model's"""
+
+    def __new__(cls, name, base=None):
+        self = np.ndarray.__new__(cls, (1,))
         self.name = name
-        self.flags = Flags(name)
-        self.base = base
+        self._flags = Flags(name)
+        self._base = base
+        return self
+
+    @property
+    def flags(self):
+        return self._flags
+
+    @property
+    def base(self):
+        return self._base
+
+
+class _Foreign:
+    """stands for the memoryview / buffer object that is the .base of np.frombuffer(...) arrays"""
 
 
 class SymCounter(dict):
@@ -78,11 +94,12 @@ def run_step(spec, tier):
         B = FA("B")
         V = FA("V", B)
         S = FA("S")
-        arrs = {"B": B, "V": V, "S": S}
+        F = FA("F", _Foreign())  # array over a foreign buffer: its base is not an array (no flags)
+        arrs = {"B": B, "V": V, "S": S, "F": F}
         cnt = SymCounter()
         trk = {}
         pre = {}
-        for a in (B, V, S):
+        for a in (B, V, S, F):
             c = z3.Int("c_" + a.name)
             t = z3.Bool("t_" + a.name)
             engine.assume(c >= 0)
@@ -102,7 +119,7 @@ def run_step(spec, tier):
             wait[id(B)].add(id(V))
         pre["waitBV"] = waitBV
         # ---- representation invariant on the pre-state
-        for a in (B, V, S):
+        for a in (B, V, S, F):
             p = pre[a.name]
             w = p["w"]
             # counted  =>  tracked and read-only
@@ -110,6 +127,7 @@ def run_step(spec, tier):
         # tracked with zero count happens only for a view waiting on its read-only base
         engine.assume(z3.Implies(z3.And(z3.BoolVal(pre["B"]["t"]), pre["B"]["c"] == 0), z3.BoolVal(False)))
         engine.assume(z3.Implies(z3.And(z3.BoolVal(pre["S"]["t"]), pre["S"]["c"] == 0), z3.BoolVal(False)))
+        engine.assume(z3.Implies(z3.And(z3.BoolVal(pre["F"]["t"]), pre["F"]["c"] == 0), z3.BoolVal(False)))
         engine.assume(z3.Implies(z3.And(z3.BoolVal(pre["V"]["t"]), pre["V"]["c"] == 0),
                                  z3.And(z3.BoolVal(waitBV), z3.Not(pre["V"]["w"]), z3.Not(pre["B"]["w"]))))
         # a waiting entry may be stale (the view was released after its base became writeable again) or point to a
@@ -126,7 +144,7 @@ def run_step(spec, tier):
         else:
             lm._release_lock_on_arr_writeability(x)
         post = {}
-        for a in (B, V, S):
+        for a in (B, V, S, F):
             c = cnt.get(id(a), 0)
             post[a.name] = dict(c=SymInt.lift(c) if not isinstance(c, int) else z3.IntVal(c), t=id(a) in trk, w=a.flags._w)
         post["waitBV"] = id(V) in wait.get(id(B), set())
@@ -147,15 +165,15 @@ def run_step(spec, tier):
 
             obs = []
             # invariant preserved
-            for n in ("B", "V", "S"):
+            for n in ("B", "V", "S", "F"):
                 q = post[n]
                 obs.append(("inv: counted => tracked & read-only (%s)" % n, [q["c"] > 0, z3.Not(z3.And(zb(q["t"]), z3.Not(zb(q["w"]))))]))
                 obs.append(("inv: count never negative (%s)" % n, [q["c"] < 0]))
-            for n in ("B", "S"):
+            for n in ("B", "S", "F"):
                 obs.append(("inv: tracked owner has a positive count (%s)" % n, [zb(post[n]["t"]), post[n]["c"] <= 0]))
             obs.append(("inv: tracked view with zero count waits on its base", [zb(post["V"]["t"]), post["V"]["c"] == 0, z3.Not(zb(post["waitBV"]))]))
             # frame: other arrays' counters untouched
-            for n in ("B", "V", "S"):
+            for n in ("B", "V", "S", "F"):
                 if n != target:
                     obs.append(("frame: counter of %s untouched" % n, [post[n]["c"] != pre[n]["c"]]))
             q, q0 = post[target], pre[target]
@@ -210,7 +228,7 @@ def run_step(spec, tier):
 def cases(tier):
     out = []
     for op in ("lock", "force-lock", "release"):
-        for tgt in ("B", "V", "S"):
+        for tgt in ("B", "V", "S", "F"):
             out.append({"kind": "step", "name": "step/%s/%s" % (op, tgt), "op": op, "target": tgt})
     progs = programs(tier)
     size = 400
@@ -225,6 +243,7 @@ def run_case(spec, tier):
         return run_step(spec, tier)
     res = common.new_result()
     n = 0
+    confirmed = set()
     for prog in spec["progs"]:
         n += 1
         try:
@@ -232,11 +251,19 @@ def run_case(spec, tier):
         except Exception as e:
             bad = "raised %s: %s" % (type(e).__name__, str(e)[:200])
         if bad:
+            sig = _signature(bad)
+            known = common.match_known(common.load_known(PROP), sig)
+            if known is not None and sig in confirmed:
+                res["violations"].append({"signature": sig, "replay": None, "summary": "(same known finding) history %s" % _fmt(prog)})
+                continue
             path = common.write_replay(PROP, gradcase._safe("%s_%d" % (spec["name"], n)), replay_history(prog))
-            ok, out = common.run_replay(path)
+            ok, out = common.run_replay(path, count=known is None)
             if ok:
-                res["status"] = common.VIOLATION
-                res["violations"].append({"signature": "guard:%s" % bad.split(": ", 1)[-1][:50], "replay": path, "summary": "history %s: %s" % (_fmt(prog), bad)})
+                if known is None:
+                    res["status"] = common.VIOLATION
+                else:
+                    confirmed.add(sig)
+                res["violations"].append({"signature": sig, "replay": path, "summary": "history %s: %s" % (_fmt(prog), bad)})
             else:
                 res["status"] = common.INCONCLUSIVE
                 res["notes"].append("did not reproduce: %s :: %s :: %s" % (_fmt(prog), bad, (out or "")[-200:]))
@@ -244,6 +271,15 @@ def run_case(spec, tier):
     res["programs"] = n
     res["sample"] = {"history": _fmt(spec["progs"][0])}
     return res
+
+
+def _signature(bad):
+    """known-finding keys: the two flag combinations of a NumPy view and its owner that the lock manager cannot restore"""
+    if "no live graph refers to AVRO but its writeable flag is True (original False)" in bad or "at quiescence: AVRO has writeable=True" in bad:
+        return "guard:read-only-view-of-writeable-owner:writeable-after-release"
+    if "no live graph refers to RWV but its writeable flag is False (original True)" in bad or "at quiescence: RWV has writeable=False" in bad:
+        return "guard:writeable-view-of-read-only-owner:read-only-after-release"
+    return "guard:%s" % bad.split(": ", 1)[-1][:50]
 
 
 def _fmt(prog):
@@ -270,10 +306,11 @@ def main(argv=None):
 
     describe = dict(
         level="other",
-        rule="(a) 9 step cases: {lock, force-lock, release} x {base B, view V of B, stand-alone S} from a symbolic pre-state (counters unbounded >= 0, "
+        rule="(a) 12 step cases: {lock, force-lock, release} x {base B, view V of B, stand-alone S, array F over a foreign buffer} from a symbolic pre-state (counters unbounded >= 0, "
              "tracker membership, writeable flags and the waiting set symbolic) under the representation invariant; (b) every ordered selection of <= 2 "
-             "(thorough 3) of 7 graph-creating statements (user array, read-only array, NumPy view, view taken while locked, out= target, matmul, tensor "
-             "sharing a user array) with one mid-history event (backward / clear_graph / del / failing op) at every position, then every release order "
+             "(thorough 3) of 15 graph-creating statements (user array, read-only array, NumPy view, view taken while locked, out= target, out= views of one "
+             "buffer, matmul, tensor sharing a user array, read-only view of a writeable owner, writeable view of a read-only owner, array over a foreign "
+             "buffer, in-place updates through a dropped view / out= temporaries / the tensor itself) with one mid-history event (backward / clear_graph / del / failing op) at every position, then every release order "
              "of the remaining results by del or clear_graph",
         explanation="(a) z3 discharges invariant preservation, frame and flag post-conditions of the real lock-manager functions for all pre-states within "
                     "the universe; (b) concrete flags compared, after every statement and at quiescence with the cyclic GC disabled, with a 3-valued "
@@ -281,10 +318,10 @@ def main(argv=None):
                     "stays read-only) computed by a reference model of graph liveness that does not look at the lock tables",
         functions=["mygrad._utils.lock_management.lock_arr_writeability", "_release_lock_on_arr_writeability", "release_writeability_lock_on_op",
                    "array_is_tracked", "unique_arrs_and_bases", "Tensor._op (locking / finalize)", "Tensor.clear_graph"],
-        bounds={"universe (a)": "{B, V view of B, S}", "histories (b)": "<= 2 graphs + 1 event (quick), <= 3 (thorough)"},
+        bounds={"universe (a)": "{B, V view of B, S, F (base not an array)}", "histories (b)": "<= 2 graphs + 1 event (quick), <= 3 (thorough)"},
         assumptions=["fake arrays expose flags.writeable / base only", "CPython reference counting is observed (gc disabled), not encoded",
                      "step-level counterexamples are never reported without a reproducing Tensor-level history"],
-        outside=["finalizer timing under a cyclic GC pass", "threads", "in-place tensor updates inside the history (covered for leaks by C13/C15)"],
+        outside=["finalizer timing under a cyclic GC pass", "threads", "arrays whose .base is neither an ndarray nor a buffer exporter (np.lib.stride_tricks.as_strided: NumPy refuses to make them writeable again)"],
     )
     return common.main(PROP, "harness.C08", cs, args.tier, args.seed, describe, extra_evidence=extra, deadline_s=900)
 
